@@ -179,7 +179,7 @@
    abstract in this tree (its init takes a non-const objective and does not override the pure virtual init): no
    object exists to check. *)
 From Coq Require Import List QArith Qreduction Qabs Bool Arith.
-From SharkV Require Import C10Model C10Proofs C10LsModel C10LsProofs C10BfgsProofs C10Gen C10LbfgsModel C10LbfgsProofs C10LbfgsBoxProofs C10LbfgsDescentProofs C10AdamRprop C10AdamRpropProofs C10CgProofs.
+From SharkV Require Import C10Model C10Proofs C10LsModel C10LsProofs C10BfgsProofs C10Gen C10LbfgsModel C10LbfgsProofs C10LbfgsBoxProofs C10LbfgsDescentProofs C10AdamRprop C10AdamRpropProofs C10CgProofs C10TrustRegion C10TrustRegionProofs.
 Import ListNotations.
 Open Scope Q_scope.
 
@@ -867,3 +867,133 @@ Example C10_ex_cg_ascent_direction_refuted :
   dot (last_der (cgx 1)) (sdir (cgx 0)) < 0 /\ 0 < dot (der (cgx 1)) (sdir (cgx 1)) /\
   Qeq_bool (dot (der (cgx 1)) (sdir (cgx 1))) (993005 # 48224) = true /\ val (cgx 2) < val (cgx 1).
 Proof. exact cg_ascent_direction_refuted. Qed.
+
+(* ================= Part 7: trust-region Newton (C10TrustRegion.v, C10TrustRegionProofs.v) ================= *)
+(* Bookkeeping, for EVERY number type (operations arbitrary: also IEEE doubles with NaN), every objective oracle pair, every
+   answer of the sub-problem solver in every step ([orc]: step number and state -> predicted change and step): after init and
+   after every step value / gradient / Hessian are what ONE evalDerivative call returns at the reported point, and
+   m_minImprovementRatio is the value set by init.  g_tr_consistent fd s := fd (tr_pt s) = (tr_val s, tr_grad s, tr_hess s). *)
+Theorem C10_trn_state_consistent :
+  forall (T : Type) (O : ops T) (leb : T -> T -> bool) (c099 c01 : T)
+         (f : list T -> T) (fd : list T -> T * list T * list (list T))
+         (orc : nat -> gtr_state T -> T * list T) (n : nat) (x0 : list T) (d0 : T),
+    let s := tr_run_with T O leb c099 f fd orc n (tr_init T c01 fd x0 d0) in
+    g_tr_consistent T fd s /\ tr_ratio s = c01.
+Proof. exact g_tr_run_with_consistent. Qed.
+Print Assumptions C10_trn_state_consistent.
+
+(* the same for the step as coded (sub-problem solved by the model of trustRegionCG) *)
+Theorem C10_trn_state_consistent_as_coded :
+  forall (T : Type) (O : ops T) (leb : T -> T -> bool) (c099 c01 : T)
+         (f : list T -> T) (fd : list T -> T * list T * list (list T)) (n : nat) (x0 : list T) (d0 : T),
+    let s := tr_run T O leb c099 f fd n (tr_init T c01 fd x0 d0) in
+    g_tr_consistent T fd s /\ tr_ratio s = c01.
+Proof. exact g_tr_run_consistent. Qed.
+Print Assumptions C10_trn_state_consistent_as_coded.
+
+(* exact rationals from here on; [sq] (std::sqrt) is an arbitrary function unless a hypothesis says otherwise.
+   The radius stays positive, for every answer of the sub-problem solver, and changes by the factors 1/4, 1, 2 only *)
+Theorem C10_trn_radius_positive :
+  forall (sq : Q -> Q) (f : vec -> Q) (fd : vec -> Q * vec * list vec) (orc : nat -> tr_state -> Q * vec)
+         (n : nat) (x0 : vec) (d0 : Q),
+    0 < d0 -> 0 < tr_delta (q_tr_run_with sq f fd orc n (q_tr_init sq fd x0 d0)).
+Proof. exact q_run_with_radius_positive. Qed.
+Print Assumptions C10_trn_radius_positive.
+
+Theorem C10_trn_radius_factors :
+  forall (sq : Q -> Q) (f : vec -> Q) (fd : vec -> Q * vec * list vec) (pred : Q) (sol : vec) (s : tr_state),
+    let d' := tr_delta (q_tr_step_with sq f fd pred sol s) in
+    d' == tr_delta s / 4 \/ d' = tr_delta s \/ d' == tr_delta s * 2.
+Proof. exact q_step_with_delta_cases. Qed.
+Print Assumptions C10_trn_radius_factors.
+
+(* WHAT THE ACCEPTANCE RULE GUARANTEES, for every answer (pred, sol) of the sub-problem solver: with one objective function
+   (coherent: operator() and evalDerivative return the same value) and m_minImprovementRatio > 0, an accepted step changes
+   the value strictly in the direction of the PREDICTED change; the code does not test the sign of the prediction, so a
+   positive prediction that comes true is accepted and increases the value (second conjunct).  A rejected step leaves point
+   and value alone.  q_accepted = (pred != 0) && (ratio <= (f(point + sol) - value) / pred). *)
+Theorem C10_trn_accepted_step_follows_prediction :
+  forall (sq : Q -> Q) (f : vec -> Q) (fd : vec -> Q * vec * list vec) (pred : Q) (sol : vec) (s : tr_state),
+    coherent f fd -> 0 < tr_ratio s -> q_accepted f pred sol s = true ->
+    let s' := q_tr_step_with sq f fd pred sol s in
+    (pred < 0 -> tr_val s' < tr_val s) /\ (0 < pred -> tr_val s < tr_val s').
+Proof. exact q_step_with_accept_sign. Qed.
+Print Assumptions C10_trn_accepted_step_follows_prediction.
+
+Theorem C10_trn_rejected_step_keeps_solution :
+  forall (sq : Q -> Q) (f : vec -> Q) (fd : vec -> Q * vec * list vec) (pred : Q) (sol : vec) (s : tr_state),
+    q_accepted f pred sol s = false ->
+    tr_pt (q_tr_step_with sq f fd pred sol s) = tr_pt s /\ tr_val (q_tr_step_with sq f fd pred sol s) = tr_val s.
+Proof. exact q_step_with_rejected. Qed.
+Print Assumptions C10_trn_rejected_step_keeps_solution.
+
+(* the guard under which a step never increases the value: the predicted change is not positive *)
+Theorem C10_trn_step_never_increases_partial :
+  forall (sq : Q -> Q) (f : vec -> Q) (fd : vec -> Q * vec * list vec) (pred : Q) (sol : vec) (s : tr_state),
+    coherent f fd -> 0 < tr_ratio s -> pred <= 0 ->
+    tr_val (q_tr_step_with sq f fd pred sol s) <= tr_val s.
+Proof. exact q_step_with_never_increases. Qed.
+Print Assumptions C10_trn_step_never_increases_partial.
+
+(* trustRegionCG as coded (after the repair fd35712b of borderDistance): for every symmetric matrix (definite or not), every
+   gradient, tolerance and positive radius the returned step lies inside the trust region and the predicted change
+   (errorDifference) is not positive.  std::sqrt has to be right only at the one number whose root borderDistance takes
+   (exits 1 and 2): sqrt_ok_at sq y := sq y * sq y == y /\ 0 <= sq y.  cg_good D r := |cg_step r|^2 <= D /\ cg_pred r <= 0. *)
+Theorem C10_trn_cg_inside_region_and_predicts_decrease :
+  forall (sq : Q -> Q) (n : nat) (H : mat) (g : vec),
+    length g = n -> length H = n -> symm n H ->
+    forall tol delta : Q, 0 < delta ->
+    let r := q_cg sq H g tol delta in
+    ((cg_exit r = 1 \/ cg_exit r = 2)%nat -> sqrt_ok_at sq (cg_sqarg r)) ->
+    dot (cg_step r) (cg_step r) <= delta * delta /\ cg_pred r <= 0.
+Proof. exact q_cg_good. Qed.
+Print Assumptions C10_trn_cg_inside_region_and_predicts_decrease.
+
+(* THE PROPERTY for the model of the whole class: for every objective with symmetric Hessians (fd_shape) whose operator() and
+   evalDerivative agree (coherent), every start, every positive initial radius, every step count k: the state after k steps is
+   consistent, the radius is positive, and the next step - provided std::sqrt is right at the one root that step takes - keeps
+   its trial point inside the trust region, predicts no increase and does not increase the value. *)
+Theorem C10_trn_run_never_increases :
+  forall (sq : Q -> Q) (f : vec -> Q) (fd : vec -> Q * vec * list vec) (n : nat) (x0 : vec) (d0 : Q) (k : nat),
+    coherent f fd -> fd_shape fd n -> 0 < d0 ->
+    let s := q_tr_run sq f fd k (q_tr_init sq fd x0 d0) in
+    g_tr_consistent Q fd s /\ 0 < tr_delta s /\
+    (sqrt_ok_for sq (q_tr_solve sq s) ->
+     let r := q_tr_solve sq s in
+     dot (cg_step r) (cg_step r) <= tr_delta s * tr_delta s /\ cg_pred r <= 0 /\
+     tr_val (q_tr_run sq f fd (S k) (q_tr_init sq fd x0 d0)) <= tr_val s).
+Proof. exact q_tr_run_good. Qed.
+Print Assumptions C10_trn_run_never_increases.
+
+(* the hypotheses are satisfiable: f = (x^2 + 16 y^2)/2 is coherent with a symmetric 2 x 2 Hessian; and on |g| = 4, tolerance 2,
+   radius 25/12 the second CG iteration crosses the border, the root is taken of (236/783)^2 (fsqrt: floor of the square root at
+   2^-30, exact on squares), the step ends ON the border and predicts a decrease *)
+Example C10_ex_trn_hypotheses_satisfiable : coherent ex_f ex_fd /\ fd_shape ex_fd 2 /\ symm 2 ex_H.
+Proof. exact (conj ex_coherent (conj ex_shape ex_H_symm)). Qed.
+Example C10_ex_trn_cg_border_second_iteration :
+  let r := q_cg fsqrt ex_H ex_g 2 (25 # 12) in
+  cg_exit r = 2%nat /\ cg_iters r = 1%nat /\ sqrt_ok_at fsqrt (cg_sqarg r) /\ Qeq_bool (cg_sqarg r) ((236 # 783) * (236 # 783)) = true /\
+  Qeq_bool (dot (cg_step r) (cg_step r)) ((25 # 12) * (25 # 12)) = true /\ cg_pred r < 0.
+Proof. exact ex_cg_border_second_iteration. Qed.
+(* REGRESSION WITNESSES of the repair fd35712b.  borderDistance computed +p/2 + sqrt(..) instead of -p/2 + sqrt(..): on the input
+   above, with an exact square root, the returned step (-3, 1/6) is longer than 3 with radius 25/12 ... *)
+Example C10_ex_trn_old_border_leaves_region_refuted :
+  let r := q_cg_old fsqrt ex_H ex_g 2 (25 # 12) in
+  cg_exit r = 2%nat /\ sqrt_ok_at fsqrt (cg_sqarg r) /\ cg_step r = [- (3 # 1); 1 # 6] /\
+  (25 # 12) * (25 # 12) < dot (cg_step r) (cg_step r).
+Proof. exact ex_cg_old_border_leaves_region_refuted. Qed.
+(* ... and on the failing input of the defect (f = (x^2 + 16 y^2)/2, start (3, -1), radius 2; the C++ gave 12.5, 3.9464068,
+   7.3915939) the second step of the old formula increases the value from < 4 to > 7 and moves the point by more than 5 *)
+Example C10_ex_trn_old_formula_increases_value_refuted :
+  let s1 := q_tr_step_old fsqrt ex_f ex_fd ex_s0 in
+  let s2 := q_tr_step_old fsqrt ex_f ex_fd s1 in
+  Qeq_bool (tr_val ex_s0) (25 # 2) = true /\ tr_val s1 < 4 /\ 7 < tr_val s2 /\ Qeq_bool (tr_delta s1) 2 = true /\
+  5 * 5 < dot (vsub (tr_pt s2) (tr_pt s1)) (vsub (tr_pt s2) (tr_pt s1)).
+Proof. exact ex_old_formula_increases_value_refuted. Qed.
+(* the repaired step on the same input *)
+Example C10_ex_trn_repaired_run_decreases :
+  let s1 := q_tr_run fsqrt ex_f ex_fd 1 ex_s0 in
+  let s2 := q_tr_run fsqrt ex_f ex_fd 2 ex_s0 in
+  tr_val s2 < tr_val s1 /\ tr_val s1 < tr_val ex_s0 /\
+  dot (vsub (tr_pt s2) (tr_pt s1)) (vsub (tr_pt s2) (tr_pt s1)) <= tr_delta s1 * tr_delta s1.
+Proof. exact ex_repaired_run_decreases. Qed.
